@@ -8,13 +8,20 @@ from .. import core, tlc, registry, session
 from .common import generic_replay
 
 
+def two_calls_ok(beh):
+    a, b = [op for op in beh if op["op"] == "Call"]
+    return (a["container"] == b["container"] and a["n"] == b["n"] and a["n"] >= 3 and a["order"] != b["order"]
+            and beh[0].get("mode") == "ok" and not any(op["op"] == "Dump" for op in beh))
+
+
 def behaviours():
     res = tlc.must(tlc.run("SessionGen", "SessionGen.cfg", "C05gen", workers=1))
     seen, out = set(), []
     for j in res["json"]:
         if "behaviour" in j:
             # TLC evaluates invariants on states that the CONSTRAINT then discards: keep Shape behaviours only
-            if any(sum(1 for op in j["behaviour"] if op["op"] == o) > 1 for o in ("Construct", "Call", "Dump")):
+            cnt = {o: sum(1 for op in j["behaviour"] if op["op"] == o) for o in ("Construct", "Call", "Dump")}
+            if cnt["Construct"] > 1 or cnt["Dump"] > 1 or cnt["Call"] > 2 or (cnt["Call"] == 2 and not two_calls_ok(j["behaviour"])):
                 continue
             k = json.dumps(j["behaviour"], sort_keys=True)
             if k not in seen:
@@ -32,7 +39,9 @@ def select(behs, cost, tier):
     if cost == "slow":
         if tier == "thorough":
             return behs
-        return [b for b in behs if not calls(b) or (calls(b)[0]["n"] <= 2 and calls(b)[0]["order"] in ("sorted", "reversed"))]
+        return [b for b in behs if not calls(b) or (calls(b)[0]["n"] <= 2 and calls(b)[0]["order"] in ("sorted", "reversed"))
+                or (len(calls(b)) == 2 and calls(b)[0]["container"] == "ndarray" and calls(b)[0]["n"] == 7
+                    and (calls(b)[0]["order"], calls(b)[1]["order"]) == ("sorted", "inner"))]
     # veryslow: constructor probes; in thorough one small call per container
     if tier == "thorough":
         return [b for b in behs if not calls(b) or (calls(b)[0]["n"] == 2 and calls(b)[0]["order"] == "reversed")]
